@@ -413,6 +413,29 @@ async fn run_case(case: &Case, keys: Arc<Vec<Vec<u8>>>, prop: &str, tag: usize) 
                 if ev.iter().any(|e| !allowed.contains(&e.at)) {
                     viol.push(("data-command-on-unrelated-node".into(), ctx(probe_desc())));
                 }
+                // the read path must end where the write path ended: GET from the same start,
+                // following MOVED, returns the value just written and is executed on the owner
+                let mark2 = sim.world.log_len();
+                let mut cur = start.clone();
+                let mut ghops = 0;
+                let mut greply;
+                loop {
+                    greply = sim.world.client(&cur, &vec![b"GET".to_vec(), key.clone()]).await;
+                    sim.world.settle().await;
+                    match is_moved(&greply) {
+                        Some((_, addr)) if ghops < 6 => {
+                            ghops += 1;
+                            cur = addr;
+                        }
+                        _ => break,
+                    }
+                }
+                let gev: Vec<Event> = sim.world.events_since(mark2).into_iter().filter(|e| e.kind == "redis" && e.cmd.iter().any(|a| a == key)).collect();
+                let get_at: Vec<String> = gev.iter().filter(|e| e.cmd.first().map(|c| c.eq_ignore_ascii_case(b"GET")).unwrap_or(false)).map(|e| e.at.clone()).collect();
+                let wrote_ok = show_resp(&reply) == "+OK" && set_at == vec![want_node.clone()];
+                if wrote_ok && (show_resp(&greply) != format!("${}", String::from_utf8_lossy(&val)) || get_at != vec![want_node.clone()] || ghops > max_hops || gev.iter().any(|e| !allowed.contains(&e.at))) {
+                    viol.push((format!("read-does-not-follow-the-write:{}", if info.mig.is_some() { "migrating-slot" } else { "stable-slot" }), ctx(format!("slot {} start {}: SET went to {} but GET answered {} after {} redirections, executed at {:?}, key seen at {:?}", slot, start, want_node, show_resp(&greply), ghops, get_at, gev.iter().map(|e| format!("{}:{}", e.at, show_cmd(&e.cmd).chars().take(24).collect::<String>())).collect::<Vec<_>>()))));
+                }
             } else if let Some(adv) = advertised.get(start).and_then(|m| m.get(slot)) {
                 // C14: advertisement agrees with what routing does from this proxy
                 match &info.mig {
